@@ -2,7 +2,9 @@
 use crate::engine::Suite;
 
 pub fn suites() -> Vec<Suite> {
-    vec![super::guards::suite_c10()]
+    let mut v = vec![super::guards::suite_c10()];
+    v.extend(sys_suites());
+    v
 }
 pub const RULE: &str = "function level: case = (offer, return, spread, belief price?, max spread?, offer decimals, ask decimals) with decimals 0..18 per side, prices from {0, tiny, 1, >1, few-digit, log-uniform}, limits from [0,1] and above 1, and near-limit constructions return = floor((offer'/p)(1-s)) + {-2..2} (belief mode) and spread = floor(total*s) + {-2..2} (ratio mode); non-trivial = the guard gave a verdict (not an overflow/abort) AND (decimals differ OR the verdict was decided within 10^-12 relative distance of the limit); distinct = hash of all seven inputs. system level: see suite descriptions";
 pub const ASSUMPTIONS: &[&str] = &[
@@ -10,3 +12,118 @@ pub const ASSUMPTIONS: &[&str] = &[
     "the 0/0 spread ratio (only max_spread given, return+spread = 0) is undefined: counted and skipped (F10)",
     "OverflowError from the checked decimal scaling and aborts (belief price 0) are rejections not attributed to the guard",
 ];
+
+// ---- system level --------------------------------------------------------------------------------
+use crate::engine::*;
+use crate::hist::*;
+use crate::props::guards::{c10_judge, GuardOutcome, SpreadCase};
+use crate::sys::*;
+use crate::world::*;
+use haloswap::pair::{Cw20HookMsg, ExecuteMsg as PairExec, SimulationResponse};
+
+/// executed swaps judged by the two implications, with the quote taken in an EARLIER state
+#[derive(Default)]
+pub struct C10Oracle {
+    quoted: Option<Result<SimulationResponse, String>>,
+    nontrivial: u64,
+}
+
+fn guard_params(step: &Step) -> (Option<u128>, Option<u128>) {
+    let conv = |d: &Option<cosmwasm_std::Decimal>| d.map(|x| x.atomics().u128());
+    match &step.call {
+        Call::Pair { msg: PairExec::Swap { belief_price, max_spread, .. }, .. } => (conv(belief_price), conv(max_spread)),
+        Call::Cw20 { msg: cw20::Cw20ExecuteMsg::Send { msg, .. }, .. } => match cosmwasm_std::from_binary::<Cw20HookMsg>(msg) {
+            Ok(Cw20HookMsg::Swap { belief_price, max_spread, .. }) => (conv(&belief_price), conv(&max_spread)),
+            _ => (None, None),
+        },
+        _ => (None, None),
+    }
+}
+
+impl StepOracle for C10Oracle {
+    fn pre_step(&mut self, w: &mut World, _step: &Step, intent: &Intent, _gs: &GenState) {
+        self.quoted = None;
+        if let Intent::Swap { pair, offer, .. } = intent {
+            if let Some(side) = w.pairs[*pair].infos.iter().position(|i| *i == offer.info) {
+                // what the swap is about to compute in this very state (C12 (a) ties it to execution)
+                self.quoted = Some(simulate(w, *pair, side, offer.amount.u128()));
+            }
+        }
+    }
+    fn on_step(&mut self, cx: &mut StepCtx, classes: &mut Vec<&'static str>) -> Verdict {
+        let w = &*cx.world;
+        let (pair, offer, delivered) = match cx.intent {
+            Intent::Swap { pair, offer, delivered, .. } => (*pair, offer, delivered),
+            _ => return Verdict::Pass,
+        };
+        let pr = &w.pairs[pair];
+        let side = match pr.infos.iter().position(|i| *i == offer.info) {
+            Some(s) => s,
+            None => return Verdict::Pass,
+        };
+        let exact_delivery = delivered.iter().filter(|(_, a)| *a > 0).count() == 1 && delivered.iter().any(|(i, a)| *i == offer.info && *a == offer.amount.u128());
+        if !exact_delivery {
+            return Verdict::Pass;
+        }
+        let (belief, max_spread) = guard_params(&cx.rec.step);
+        let sim = match self.quoted.take() {
+            Some(Ok(s)) => s,
+            _ => return Verdict::Pass, // pricing itself aborts: not a guard verdict
+        };
+        let out = match &cx.rec.outcome {
+            Outcome::Ok { .. } => GuardOutcome::Ok,
+            o if o.err_text().contains("Max spread assertion") => GuardOutcome::GuardReject,
+            o => GuardOutcome::OtherReject(o.err_text().chars().take(80).collect()),
+        };
+        // the pair's decimals in offer / ask order are the TRUE decimals of the two assets
+        let od = w.asset_decimals(pr.assets[side]);
+        let rd = w.asset_decimals(pr.assets[1 - side]);
+        let k = SpreadCase { offer: offer.amount.u128(), ret: sim.return_amount.u128(), spread: sim.spread_amount.u128(), belief, max_spread, od, rd, class: "g:world" };
+        classes.push(match (&out, belief.is_some(), max_spread.is_some()) {
+            (GuardOutcome::Ok, true, true) => "w:belief+spread accepted",
+            (GuardOutcome::GuardReject, true, true) => "w:belief+spread guard-rejected",
+            (GuardOutcome::Ok, false, true) => "w:spread-only accepted",
+            (GuardOutcome::GuardReject, false, true) => "w:spread-only guard-rejected",
+            (GuardOutcome::OtherReject(_), _, _) => "w:other-rejection",
+            (GuardOutcome::Ok, _, false) => "w:no-limit accepted",
+            (GuardOutcome::GuardReject, _, false) => "w:no-limit guard-rejected",
+        });
+        classes.push(if od > rd { "dec:offer>ask" } else if od < rd { "dec:offer<ask" } else { "dec:equal" });
+        match c10_judge(&k, &out) {
+            Ok(near) => {
+                if max_spread.is_some() && !matches!(out, GuardOutcome::OtherReject(_)) && (near || od != rd) {
+                    self.nontrivial += 1;
+                }
+                Verdict::Pass
+            }
+            Err(m) => Verdict::Fail(format!(
+                "step {}: swap of {} on pair{} (decimals offer {} / ask {}; priced return {}, spread {}) with belief_price {:?} max_spread {:?} -> {:?}: {}",
+                cx.index, offer, pair, od, rd, k.ret, k.spread, belief, max_spread, out, m
+            )),
+        }
+    }
+    fn nontrivial(&self) -> bool {
+        self.nontrivial > 0
+    }
+}
+
+fn run_sys(t: &Tape, want_desc: bool) -> CaseResult {
+    let mut o = C10Oracle::default();
+    let h = run_history(t, &GUARDED, 15, &mut o, want_desc);
+    hist_case(t, h)
+}
+
+pub fn sys_suites() -> Vec<Suite> {
+    vec![Suite {
+        name: "world_guarded_swaps",
+        about: "orders are quoted by Simulation in one state and executed later with belief_price / max_spread derived from the stale quote, after other traders' swaps; the executed outcome is judged by the same two implications using the pair's true decimals in offer/ask order",
+        head_len: HEAD_LEN,
+        op_len: OP_LEN,
+        max_ops: 30,
+        quick_cases: 4_000,
+        thorough_cases: 300_000,
+        run: run_sys,
+        direct: Some(direct_with::<C10Oracle>),
+        must_hit: &["w:belief+spread accepted", "w:belief+spread guard-rejected", "w:spread-only accepted", "w:spread-only guard-rejected", "dec:offer>ask", "dec:offer<ask", "dec:equal"],
+    }]
+}
